@@ -15,6 +15,12 @@
 // The queue bound (maxQueueSize) is a parameter of every PROCESS START: a restart / crash recovery may start the new
 // Sequencer with another bound than the one the records were written under (unchanged, unlimited, larger, equal to,
 // smaller than the number of batches pending at that moment, 1).
+// THE DATASTORE OF A RUN (Replay.Store): badger (it copies what it is given), or - half of the small sequential cases -
+// the in-memory map datastore (dssync.MutexWrap(ds.NewMapDatastore()): what every in-memory node and every test of the
+// repository runs on), which KEEPS THE SLICE handed to Put: a record must still hold the batch it was written for when
+// the next process reads it, whatever its writer did with the buffer afterwards.  At every process start the records of
+// the LIVE store are read back (decoded contents, key order): the oracle requires them to be exactly the pending batches
+// in acceptance order, and they go to Coq (qc_starts; Model/QueueStarts.v) next to results, final image and write log.
 package c10
 
 import (
@@ -34,6 +40,7 @@ import (
 	"time"
 
 	ds "github.com/ipfs/go-datastore"
+	dssync "github.com/ipfs/go-datastore/sync"
 	logging "github.com/ipfs/go-log/v2"
 	"google.golang.org/protobuf/proto"
 
@@ -80,6 +87,7 @@ func boundAfter(cur int, it Item) int {
 
 type Replay struct {
 	Kind    string     `json:"kind"`             // seq | legacy | conc
+	Store   string     `json:"store,omitempty"`  // "" = badger (in memory; on disk when the pool holds a large batch) | "map" = the in-memory map datastore, which keeps the slices it is given
 	Legacy  []int      `json:"legacy,omitempty"` // kind legacy: pool ids whose records pre-exist under the old bare-hash keys
 	Seed    int64      `json:"seed"`
 	Case    int        `json:"case"`
@@ -439,6 +447,11 @@ func drawBudgets(seed int64, c int, pool [][][]byte, h []Item) {
 	}
 }
 
+// the datastore of a generated small case, from a PRNG stream of its own: true = the in-memory map datastore
+func drawStore(seed int64, c int) bool {
+	return rand.New(rand.NewSource(seed*1000003+int64(c)+0x3c6ef372)).Intn(2) == 0
+}
+
 func payloadOf(b [][]byte) int {
 	n := 0
 	for _, tx := range b {
@@ -606,6 +619,21 @@ type out struct {
 	// next, when the batch handed out is no pool batch: it is a proper contiguous part of pool batch partOf (oracle only)
 	partOf, partLen int
 	txs             [][]byte // next: the transactions handed out (oracle only)
+	// restart / crash: the records the live store held when the new process was started, in key order
+	start    []rec
+	hasStart bool
+}
+
+// one record under the queue's prefix: key projected to its sequence number (projKey), DECODED contents as pool id
+// (projVal: 999998 = does not decode, 999999 = decodes to a batch that is not in the pool)
+type rec struct{ key, val uint64 }
+
+func recsCoq(l []rec) string {
+	var es []string
+	for _, e := range l {
+		es = append(es, fmt.Sprintf("(%s, %s)", vgen.N(e.key), vgen.N(e.val)))
+	}
+	return vgen.List(es)
 }
 
 func (o out) coq() string {
@@ -646,18 +674,19 @@ var logger = func() logging.EventLogger {
 	return l
 }()
 
-func newRunner(pool [][][]byte, max int) (*runner, error) { return newRunnerSeeded(pool, max, nil) }
-
-func newRunnerSeeded(pool [][][]byte, max int, legacy []int) (*runner, error) {
-	return newRunnerOn(pool, max, legacy, needsDisk(pool))
+func newRunnerSeeded(pool [][][]byte, storeKind string, max int, legacy []int) (*runner, error) {
+	return newRunnerOn(pool, storeKind, max, legacy, needsDisk(pool))
 }
 
-// disk: the production store (badger on disk, values above 1 MiB go to its value log); otherwise badger in memory
-func newRunnerOn(pool [][][]byte, max int, legacy []int, disk bool) (*runner, error) {
+// store "map": the in-memory map datastore (keeps the slices it is given; key-ordered queries by sorting).
+// Otherwise badger - disk: the production store (on disk, values above 1 MiB go to its value log); else in memory
+func newRunnerOn(pool [][][]byte, storeKind string, max int, legacy []int, disk bool) (*runner, error) {
 	var kv ds.Batching
 	var err error
 	dir := ""
-	if disk {
+	if storeKind == "map" {
+		kv = dssync.MutexWrap(ds.NewMapDatastore())
+	} else if disk {
 		if dir, err = os.MkdirTemp(scratchDir, "c10-ds-"); err != nil {
 			return nil, err
 		}
@@ -812,6 +841,19 @@ func (r *runner) imageChangedSince(before int) bool {
 	return false
 }
 
+// the records of the LIVE store (not of the write log), in key order, as the process about to be started will find them
+func (r *runner) startImage() ([]rec, bool) {
+	dump, err := crashds.Dump(r.ctx, r.kv)
+	if err != nil {
+		return nil, false
+	}
+	l := []rec{}
+	for _, e := range dump {
+		l = append(l, rec{projKey(e.Key), r.projVal(e.Value)})
+	}
+	return l, true
+}
+
 func (r *runner) exec(it Item) out {
 	switch it.T {
 	case "submit":
@@ -823,10 +865,11 @@ func (r *runner) exec(it Item) out {
 		return r.next(it)
 	case "restart":
 		r.max = boundAfter(r.max, it) // the new process's maxQueueSize
+		st, ok := r.startImage()
 		if err := r.boot(); err != nil {
 			return out{kind: "other"}
 		}
-		return out{kind: "none"}
+		return out{kind: "none", start: st, hasStart: ok}
 	case "crash":
 		// the process dies inside the operation after it.N of its datastore writes became durable
 		before := r.cds.Len()
@@ -840,10 +883,11 @@ func (r *runner) exec(it Item) out {
 		}
 		r.cds.FailAfter = -1
 		r.max = boundAfter(r.max, it) // the new process's maxQueueSize
+		st, ok := r.startImage()
 		if err := r.boot(); err != nil {
 			return out{kind: "other"}
 		}
-		return out{kind: "none", inner: &in}
+		return out{kind: "none", inner: &in, start: st, hasStart: ok}
 	}
 	panic("bad item " + it.T)
 }
@@ -879,6 +923,46 @@ type oracle struct {
 	maxIdx  int
 	// at the first out-of-order hand-out: was the batch handed out the pending one with the smallest content hash?
 	gotMinHash bool
+	// a process start found two or more pending batches of which an earlier one differs from the one accepted last
+	// (its record was written before another batch was encoded by the same process)
+	olderDiffRst bool
+}
+
+// "batches accepted but not yet handed out survive a restart": the records the live store holds when a process is
+// started (read back and decoded, key order) are exactly the pending batches in acceptance order
+func (o *oracle) checkRecords(idx int, got out) {
+	if o.symptom != "" || !got.hasStart || o.headOff > 0 {
+		return
+	}
+	var vals []int
+	for _, e := range got.start {
+		vals = append(vals, int(e.val))
+	}
+	same := len(vals) == len(o.pending)
+	for i := 0; same && i < len(vals); i++ {
+		same = vals[i] == o.pending[i]
+	}
+	if same {
+		return
+	}
+	class := ""
+	a, b := append([]int{}, vals...), append([]int{}, o.pending...)
+	sort.Ints(a)
+	sort.Ints(b)
+	switch {
+	case contains(vals, 999998):
+		class = "record-does-not-decode"
+	case len(vals) < len(o.pending):
+		class = "pending-batch-without-record"
+	case len(vals) > len(o.pending):
+		class = "record-of-no-pending-batch"
+	case fmt.Sprint(a) == fmt.Sprint(b):
+		class = "records-out-of-acceptance-order"
+	default:
+		class = "record-holds-another-batch-than-the-one-accepted"
+	}
+	o.fail("process-start:"+class, fmt.Sprintf("item %d: the process is started on records holding (decoded, in key order) %v, but the batches accepted and not yet handed out are %v (999998 = undecodable, 999999 = no batch ever submitted)",
+		idx, short(vals), short(o.pending)))
 }
 
 // number of digits of v in the radix
@@ -952,6 +1036,11 @@ func (o *oracle) noteRestart(it Item) {
 	}
 	if len(o.pending) == 0 {
 		o.nextIdx = 0 // the store is empty: numbering may start over
+	}
+	for i := 0; i+1 < len(o.pending); i++ {
+		if o.pending[i] != o.pending[len(o.pending)-1] {
+			o.olderDiffRst = true
+		}
 	}
 	for i := 0; i+1 < len(o.pending); i++ {
 		if bytes.Compare(o.hashOf(o.pending[i]), o.hashOf(o.pending[i+1])) >= 0 {
@@ -1074,6 +1163,10 @@ func (o *oracle) observe(idx int, it Item, got out) {
 		if got.kind != "none" {
 			o.fail("restart-failed", fmt.Sprintf("item %d: the sequencer could not be rebuilt on its datastore", idx))
 		}
+		o.checkRecords(idx, got)
+		if o.symptom != "" {
+			return
+		}
 		o.noteRestart(it)
 	}
 }
@@ -1145,6 +1238,10 @@ func (o *oracle) observeCrash(idx int, it Item, wrote bool, got out) {
 			return
 		}
 	}
+	o.checkRecords(idx, got)
+	if o.symptom != "" {
+		return
+	}
 	o.noteRestart(it)
 }
 
@@ -1193,6 +1290,7 @@ type caseResult struct {
 	outs   []out
 	image  []string
 	log    []string
+	starts []string // per process start: the records of the live store, as a Coq list
 	sig    string
 	what   string
 	err    error
@@ -1244,14 +1342,14 @@ func (r *runner) projVal(v []byte) uint64 {
 
 // legacy: pool ids whose records pre-exist in the datastore under the OLD key scheme (bare hex hash), as a
 // store written before the repair would hold them.
-func runCase(pool [][][]byte, max int, hist []Item, legacy ...int) (res *caseResult) {
+func runCase(pool [][][]byte, store string, max int, hist []Item, legacy ...int) (res *caseResult) {
 	res = &caseResult{}
 	defer func() {
 		if x := recover(); x != nil {
 			res.sig, res.what, res.panicd = "panic", fmt.Sprint(x), true
 		}
 	}()
-	r, err := newRunnerSeeded(pool, max, legacy)
+	r, err := newRunnerSeeded(pool, store, max, legacy)
 	if err != nil {
 		res.err = err
 		return
@@ -1275,6 +1373,9 @@ func runCase(pool [][][]byte, max int, hist []Item, legacy ...int) (res *caseRes
 			or.observe(i, it, o)
 		}
 		res.outs = append(res.outs, o)
+		if it.T == "restart" || it.T == "crash" {
+			res.starts = append(res.starts, recsCoq(o.start))
+		}
 	}
 	if or.symptom == "" && len(or.pending) > 0 {
 		or.fail("next-empty-but-pending", "closing: accepted batches never handed out")
@@ -1445,7 +1546,7 @@ func runConcurrent(seed int64, c int) (sig, what string, stats map[string]int) {
 		txSize = []int{750_001, 800_000, 600_000, 1_100_000}[r.Intn(4)]
 		stats["conc:large-runs"] = 1
 	}
-	run, err := newRunnerOn(nil, max, nil, large)
+	run, err := newRunnerOn(nil, "", max, nil, large)
 	if err != nil {
 		return "harness-error", err.Error(), stats
 	}
@@ -1787,6 +1888,12 @@ func TestVerif(t *testing.T) {
 		} else {
 			pool = poolFromHex(rp.Pool)
 		}
+		if j.gen && rp.Kind != "size" && drawStore(rp.Seed, rp.Case) {
+			rp.Store = "map"
+		}
+		if rp.Store != "" && rp.Store != "map" {
+			t.Fatalf("replay names an unknown store %q", rp.Store)
+		}
 		if !validHist(rp.History, len(pool)) {
 			t.Fatalf("replay refers to a batch outside its pool")
 		}
@@ -1795,7 +1902,7 @@ func TestVerif(t *testing.T) {
 				t.Fatalf("replay refers to a legacy batch outside its pool")
 			}
 		}
-		cr := runCase(pool, rp.Max, rp.History, rp.Legacy...)
+		cr := runCase(pool, rp.Store, rp.Max, rp.History, rp.Legacy...)
 		if cr.err != nil {
 			t.Fatalf("harness error: %v", cr.err)
 		}
@@ -1812,6 +1919,14 @@ func TestVerif(t *testing.T) {
 			res.Count("case:sequential")
 		}
 		res.Count(fmt.Sprintf("max:%d", rp.Max))
+		switch {
+		case rp.Store == "map":
+			res.Count("store:in-memory-map-datastore(keeps-the-slice-it-is-given)")
+		case needsDisk(pool):
+			res.Count("store:badger-on-disk")
+		default:
+			res.Count("store:badger-in-memory")
+		}
 		for _, it := range rp.History {
 			k := "item:" + it.T
 			if it.T == "crash" {
@@ -1841,6 +1956,12 @@ func TestVerif(t *testing.T) {
 			if cr.orc.lowStart {
 				res.Count("history:start-with-bound-below-pending")
 			}
+			if cr.orc.olderDiffRst {
+				res.Count("history:start-with-an-older-pending-batch-differing-from-the-last-accepted")
+				if rp.Store == "map" {
+					res.Count("history:start-with-an-older-pending-batch-differing-from-the-last-accepted:on-map-datastore")
+				}
+			}
 			if cr.orc.wideRst {
 				res.Count("history:start-with-pending-acceptance-numbers-of-different-width")
 			}
@@ -1859,7 +1980,7 @@ func TestVerif(t *testing.T) {
 		full := withClosing(rp.History)
 		hc := histCoq(rp.Max, full)
 		if len(rp.History) >= 3 && cr.orc != nil && cr.orc.accepted > 0 {
-			dk := fmt.Sprintf("%d|%v|%s", rp.Max, rp.Legacy, hc)
+			dk := fmt.Sprintf("%d|%v|%s|%s", rp.Max, rp.Legacy, hc, rp.Store)
 			if needsDisk(pool) {
 				dk += fmt.Sprint(rp.Pool) // size-boundary cases: the transactions' sizes are part of the input
 			}
@@ -1871,7 +1992,7 @@ func TestVerif(t *testing.T) {
 			if shrunk[sig] < 2 { // bin/check reports one replay per signature; shrinking the rest is wasted time
 				shrunk[sig]++
 				sh = shrinkHist(rp.History, 1500, func(h []Item) bool {
-					x := runCase(pool, rp.Max, h, rp.Legacy...)
+					x := runCase(pool, rp.Store, rp.Max, h, rp.Legacy...)
 					return x.sig == sig
 				})
 			}
@@ -1879,7 +2000,7 @@ func TestVerif(t *testing.T) {
 			srp.History = sh
 			srp.Note = "the harness appends the closing sequence next x (submits+1), restart, next"
 			what := cr.what
-			if x := runCase(pool, rp.Max, sh, rp.Legacy...); x.sig == sig {
+			if x := runCase(pool, rp.Store, rp.Max, sh, rp.Legacy...); x.sig == sig {
 				what = x.what
 			}
 			vc := ji
@@ -1895,8 +2016,8 @@ func TestVerif(t *testing.T) {
 		if len(rp.Legacy) > 0 {
 			continue // the model starts from an empty store: cases on a pre-repair store are oracle-only
 		}
-		mod := fmt.Sprintf("Module C%d.\nDefinition c : qcase := {| qc_max := %s; qc_hist := %s;\n qc_outs := %s;\n qc_image := %s;\n qc_log := %s |}.\nEnd C%d.",
-			ji, vgen.N(uint64(rp.Max)), hc, vgen.List(outs), vgen.List(cr.image), vgen.List(cr.log), ji)
+		mod := fmt.Sprintf("Module C%d.\nDefinition c : qcase := {| qc_max := %s; qc_hist := %s;\n qc_outs := %s;\n qc_image := %s;\n qc_log := %s;\n qc_starts := %s |}.\nEnd C%d.",
+			ji, vgen.N(uint64(rp.Max)), hc, vgen.List(outs), vgen.List(cr.image), vgen.List(cr.log), vgen.List(cr.starts), ji)
 		defsAll = append(defsAll, mod)
 		for _, k := range cr.keys {
 			noteKeySample(keySamples, k)
@@ -1909,9 +2030,9 @@ func TestVerif(t *testing.T) {
 		ji++
 	}
 	res.Distinct = len(distinct)
-	res.Rule = "sequential cases: pool of 2-5 batches (incl. one-empty-transaction, [ab] vs [a,b] vs [b,a]) submitted as fresh copies so equal contents recur; bound of the first process from {0,1,2,3,5,8,1000 (NewSequencer)}; THE BOUND IS A PARAMETER OF EVERY PROCESS START: in three cases of four every restart / crash recovery draws the new process's bound (30% unchanged, else unlimited / larger than bound and pending / equal to the number pending / smaller than the number pending (20%) / 1 / one of the usual bounds), one case in four opens with a burst of 2-7 submissions followed by a restart (or crash) whose new bound is smaller than the number of batches pending; one size-boundary case in three draws every start's bound from {unchanged,0,1,2,3,4}; THE CONSUMER'S BYTE BUDGET: in half of the sequential cases (a quarter: 25% of the hand-out requests, a quarter: 70%) GetNextBatchRequest.MaxBytes is set - 1 byte, the first transaction / one byte under / exactly / one byte over / a random part of the payload of a pool batch, a usual blob limit, 2^40 - and passed to the real GetNextBatch and to the model (item:next-with-byte-budget); the oracle follows the queue at transaction level: a hand-out that is part of a submission is a symptom, and a graver one found later (the remainder lost or overtaken, e.g. after a restart) is reported as after-partial-hand-out:*; LONG RUNS: every 20th case submits until the number of batches accepted since the store was last empty passes 10, 16 (six in ten), 100 or 256 (thorough: also 1000, 4096), keeping 0..11 batches pending on the way (bound from {0,1000,3,5,8,12}; one in four with a restart on the way), leaves 1-4 batches accepted below and 1-4 accepted at / above that number pending, then restarts (or dies inside a submit / next, one in three with a new bound) and goes on for 0..7 items (history:acceptance-number-reached-*, start:pending-acceptance-numbers-of-different-width are measured by the oracle's own count); the first 18 bytes of the real record keys are compared in Coq with Model/QueueKeys.v's key strings, one sample per distinct sequence number; the distribution entries start:* are measured against the oracle's pending count at each start; histories of 1..maxLen items over submit (8% foreign chain id, 14% nil/empty), next, restart (0-24% per case), crash inside submit/next with 0..2 writes surviving; every history is closed by next x (submits+1), restart, next; every 10th case = 2-5 concurrent submitters + one concurrent consumer (oracle only; every fourth of them with LARGE submissions of 2-3 transactions, 1.2-3.3 MB, bound from {0,2,3}, on the on-disk store); two cases in ten are size-boundary cases on the on-disk badger store: pool = 1-2 one-transaction batches + 1-2 LARGE batches (payload k*L+d, L from {1_500_000, 1 MiB, 2_000_000, 2 MiB, 1_000_000, random}, k 1..3, d from {-1, 0, +1, a few KB under / over, a quarter to three quarters of L over}; 2..5 transactions: equal parts, random cuts, one huge first / last, each just over L/2), bound from {0,1,2,3,4}, history = fill the queue so that 1..3 slots are free (or 0..2 small submissions), a large submission (30%: cut by a crash after 0..5 of its datastore writes), an aftermath (restart / next+restart / crash inside next / another large submission) and 0..6 random items; a rejected submission must leave the datastore image unchanged (oracle), a batch handed out must be a whole submission (oracle); every 10th case runs on a store pre-seeded with 1-2 records under the pre-repair bare-hash keys (oracle only: they must be handed out first, exactly once, and be deleted); non-trivial = at least 3 items and one accepted batch; distinct = distinct (first bound, keys, history with the bounds of its process starts) terms"
+	res.Rule = "THE DATASTORE: half of the small sequential cases (plain, long-run, pre-repair-store; drawn per case) run on the in-memory map datastore (dssync.MutexWrap(ds.NewMapDatastore()), which keeps the slice handed to Put - what the repository's in-memory nodes and tests use), the others on badger in memory, size-boundary cases on badger on disk (store:*); at EVERY process start of every sequential case the records of the live store are read back and decoded: the oracle requires them to be exactly the pending batches in acceptance order (process-start:*), and they are compared in Coq with the records the model's starting processes find (qc_starts, Model/QueueStarts.v); history:start-with-an-older-pending-batch-differing-from-the-last-accepted counts the cases in which a process start found a record written before the same process encoded a DIFFERENT batch; sequential cases: pool of 2-5 batches (incl. one-empty-transaction, [ab] vs [a,b] vs [b,a]) submitted as fresh copies so equal contents recur; bound of the first process from {0,1,2,3,5,8,1000 (NewSequencer)}; THE BOUND IS A PARAMETER OF EVERY PROCESS START: in three cases of four every restart / crash recovery draws the new process's bound (30% unchanged, else unlimited / larger than bound and pending / equal to the number pending / smaller than the number pending (20%) / 1 / one of the usual bounds), one case in four opens with a burst of 2-7 submissions followed by a restart (or crash) whose new bound is smaller than the number of batches pending; one size-boundary case in three draws every start's bound from {unchanged,0,1,2,3,4}; THE CONSUMER'S BYTE BUDGET: in half of the sequential cases (a quarter: 25% of the hand-out requests, a quarter: 70%) GetNextBatchRequest.MaxBytes is set - 1 byte, the first transaction / one byte under / exactly / one byte over / a random part of the payload of a pool batch, a usual blob limit, 2^40 - and passed to the real GetNextBatch and to the model (item:next-with-byte-budget); the oracle follows the queue at transaction level: a hand-out that is part of a submission is a symptom, and a graver one found later (the remainder lost or overtaken, e.g. after a restart) is reported as after-partial-hand-out:*; LONG RUNS: every 20th case submits until the number of batches accepted since the store was last empty passes 10, 16 (six in ten), 100 or 256 (thorough: also 1000, 4096), keeping 0..11 batches pending on the way (bound from {0,1000,3,5,8,12}; one in four with a restart on the way), leaves 1-4 batches accepted below and 1-4 accepted at / above that number pending, then restarts (or dies inside a submit / next, one in three with a new bound) and goes on for 0..7 items (history:acceptance-number-reached-*, start:pending-acceptance-numbers-of-different-width are measured by the oracle's own count); the first 18 bytes of the real record keys are compared in Coq with Model/QueueKeys.v's key strings, one sample per distinct sequence number; the distribution entries start:* are measured against the oracle's pending count at each start; histories of 1..maxLen items over submit (8% foreign chain id, 14% nil/empty), next, restart (0-24% per case), crash inside submit/next with 0..2 writes surviving; every history is closed by next x (submits+1), restart, next; every 10th case = 2-5 concurrent submitters + one concurrent consumer (oracle only; every fourth of them with LARGE submissions of 2-3 transactions, 1.2-3.3 MB, bound from {0,2,3}, on the on-disk store); two cases in ten are size-boundary cases on the on-disk badger store: pool = 1-2 one-transaction batches + 1-2 LARGE batches (payload k*L+d, L from {1_500_000, 1 MiB, 2_000_000, 2 MiB, 1_000_000, random}, k 1..3, d from {-1, 0, +1, a few KB under / over, a quarter to three quarters of L over}; 2..5 transactions: equal parts, random cuts, one huge first / last, each just over L/2), bound from {0,1,2,3,4}, history = fill the queue so that 1..3 slots are free (or 0..2 small submissions), a large submission (30%: cut by a crash after 0..5 of its datastore writes), an aftermath (restart / next+restart / crash inside next / another large submission) and 0..6 random items; a rejected submission must leave the datastore image unchanged (oracle), a batch handed out must be a whole submission (oracle); every 10th case runs on a store pre-seeded with 1-2 records under the pre-repair bare-hash keys (oracle only: they must be handed out first, exactly once, and be deleted); non-trivial = at least 3 items and one accepted batch; distinct = distinct (first bound, keys, history with the bounds of its process starts) terms"
 	res.Cases = len(cases)
-	header := "From Coq Require Import NArith List Bool.\nFrom Verif Require Import Model.Queue Model.QueueBudget Check.QueueCheck."
+	header := "From Coq Require Import NArith List Bool.\nFrom Verif Require Import Model.Queue Model.QueueBudget Model.QueueStarts Check.QueueCheck."
 	path := filepath.Join(e.Out, "cases_C10.v")
 	var sqs []uint64
 	for sq := range keySamples {
